@@ -251,6 +251,39 @@ func c18Bounded(c *Ctx, fn *ssa.Function, b blockSite, closed, signalled map[str
 				return true, "select has a case on " + f + ".Channel(), which is signalled in the module"
 			}
 		}
+		// a timeout channel handed in by the caller: a time.After channel fires once, so every call must get its own —
+		// at every call site the argument is time.After(...) evaluated for that call (same block as the call)
+		for _, st := range sel.States {
+			if st.Dir != types.RecvOnly {
+				continue
+			}
+			p, ok := resolve(st.Chan).(*ssa.Parameter)
+			if !ok || p.Parent() != fn || !strings.HasSuffix(p.Type().String(), "chan time.Time") {
+				continue
+			}
+			idx := -1
+			for i, q := range fn.Params {
+				if q == p {
+					idx = i
+				}
+			}
+			sites := c.callSitesOf(func(f *ssa.Function) bool { return f == fn })
+			c.P.onlyCalledFrom(fn, nil) // builds the value-use index
+			if idx < 0 || len(sites) == 0 || c.P.valueUse[fn] {
+				return false, "the timeout channel is a parameter whose callers are not all known"
+			}
+			for _, s := range sites {
+				if idx >= len(s.Common().Args) {
+					return false, "the timeout channel is a parameter whose callers are not all known"
+				}
+				cl, isCall := resolve(s.Common().Args[idx]).(*ssa.Call)
+				fresh := isCall && cl.Common().StaticCallee() != nil && extName(cl.Common().StaticCallee()) == "time.After" && cl.Block() == s.Block() && cl.Parent() == s.Parent()
+				if !fresh {
+					return false, "the timeout case waits on a channel handed in by the caller, and " + anchorName(s.Parent()) + " (" + c.P.pos(s.Pos()) + ") does not pass a time.After(...) made for that call: a timer channel fires once, a second wait on it never times out"
+				}
+			}
+			return true, "select has a timeout case on a parameter, and every one of the " + itoa(len(sites)) + " call site(s) passes a time.After(...) made for that call"
+		}
 		return false, "no timer, ticker or signalled-awaitable case"
 	case "recv", "range":
 		var ch ssa.Value
